@@ -43,6 +43,8 @@ inductive Res where
   | busy
   /-- EINVAL -/
   | inval
+  /-- the op was cancelled through a cancel token (ECANCELED / the poller's cancelled entry) -/
+  | cancelled
   deriving DecidableEq, Repr
 
 /-! ## `u16::next_power_of_two` -/
@@ -407,6 +409,7 @@ inductive Ev where
   | wcancel (i k : Nat)
   | wdstream (i k : Nat)
   | nextw (i : Nat)
+  | tcancel (i : Nat)
   deriving Repr
 
 /-- what the program sees -/
@@ -442,6 +445,7 @@ def finishFut (w : World) (i : Nat) (s : Src) (f : Fut) (r : Res) (flag : Bool) 
   match r with
   | .busy => ({ w with pool := w.pool.dropOpt f.buf }.setSrc i s', .err now "busy")
   | .inval => ({ w with pool := w.pool.dropOpt f.buf }.setSrc i s', .err now "InvalidInput")
+  | .cancelled => ({ w with pool := w.pool.dropOpt f.buf }.setSrc i s', .err now "cancelled")
   | .ok 0 => ({ w with pool := w.pool.dropOpt f.buf }.setSrc i s', .none now)
   | .ok k =>
     match f.buf with
@@ -528,6 +532,22 @@ def evCancel (w : World) (i : Nat) : World × Out :=
     | none => (w, .bad)
     | some f => ({ w with pool := w.pool.dropOpt f.buf }.setSrc i { s with fut := none }, .ok)
 
+/-- `CancelToken::cancel` → `Proactor::cancel_token`: a pending op completes with the cancelled error
+    (io_uring: AsyncCancel, no buffer selected; polling: the waiter is taken out of the fd's queue,
+    WHATEVER its position, and a cancelled entry is delivered). The future and its op stay alive until the
+    future is awaited or dropped — on the fallback pool the op keeps its buffer until then. A finished op
+    is not affected. -/
+def evTCancel (w : World) (i : Nat) : World × Out :=
+  match validSrc w i with
+  | none => (w, .bad)
+  | some s =>
+    match s.fut with
+    | none => (w, .bad)
+    | some f =>
+      match f.done with
+      | some _ => (w, .ok)
+      | none => (w.setSrc i { s with fut := some { f with done := some (.cancelled, false) } }, .ok)
+
 def evOpen (w : World) (i len : Nat) : World × Out :=
   match validSrc w i with
   | none => (w, .bad)
@@ -543,6 +563,7 @@ def terminalItem (w : World) (i : Nat) (s : Src) (len : Nat) (m : MOp) (r : Res)
   match r with
   | .busy => ({ w with pool := p0.dropOpt m.buf }.setSrc i s', .ierr "busy")
   | .inval => ({ w with pool := p0.dropOpt m.buf }.setSrc i s', .ierr "InvalidInput")
+  | .cancelled => ({ w with pool := p0.dropOpt m.buf }.setSrc i s', .ierr "cancelled")
   | .ok k =>
     match m.buf with
     | none => ({ w with pool := p0 }.setSrc i s', .fin)
@@ -777,6 +798,7 @@ def step (w : World) (e : Ev) : World × Out :=
     | .wcancel i k => evWCancel w i k
     | .wdstream i k => evWDstream w i k
     | .nextw i => evNextW w i
+    | .tcancel i => evTCancel w i
 
 def run (w : World) : List Ev → World
   | [] => w
